@@ -15,10 +15,10 @@ correspondence workload over the MODELLED Postgres (LeanPG) and by `Ledger.Props
 namespace Ledger.C19e
 open Ledger.Ctrl Ledger.E2e
 
-/-- A write on ledger `l` — successful, failing, dry-run, or hit by a fault at any store call or
+/-- A write on ledger `l` — successful, failing, dry-run, or hit by any plan of faults at store calls and / or
     at COMMIT — leaves every other ledger's state (tables and sequences) untouched. -/
 theorem write_on_l_preserves_others (strict : Bool) (m : MState) (l l' : String) (op : Op)
-    (f : Option Fault) (cf : Bool) (h : l' ≠ l) :
+    (f : Faults) (cf : Bool) (h : l' ≠ l) :
     (stepM strict m l op f cf).1.ledgers l' = m.ledgers l' :=
   stepM_other strict m l l' op f cf h
 
